@@ -111,6 +111,32 @@ fn full_cases(r: &mut Rng, n: usize, sink: &mut Sink) {
                 input: json!({"run": ctx.input, "step": s.k}), oracle_fail: fails, known: vec![], in_domain });
             made += 1;
         }
+        // the real SetSpeedTrainSim::walk() from the first sample to the last against ss_full_walk
+        if let (true, Some((res, st, cache, con)), Some(s0)) = (ss, &ctx.ss_walk, ctx.steps.first()) {
+            if let (Some(c0), false) = (&s0.pre_con, has_hybrid(con)) {
+                if let Some(fmax) = fm(c0) {
+                    let n_tr = ctx.times.len();
+                    let mut tags = ctx.tags.clone(); tags.push("sim:set_speed".into()); tags.push(format!("walk_steps:{}", bucket(st.i.saturating_sub(s0.pre.i))));
+                    let mut fails = vec![];
+                    let outcome = match res {
+                        Ok(()) => {
+                            oracle_levels(st, con, &mut fails);
+                            if st.i != n_tr.max(s0.pre.i) { fails.push(format!("walk() returned Ok with step counter {} for a trace of {} samples", st.i, n_tr)); }
+                            let p = Post { st: *st, cache: *cache, fb: None, idx: 0 };
+                            let mut o = outs_post(&p); o.extend(outs_consist(con)); tags.push("result:ok".into()); Outcome::Ok(o)
+                        }
+                        Err((-1, m)) => { tags.push("result:panic".into()); Outcome::Panic(m.clone()) }
+                        Err((998, m)) => { let (c, _) = consist_err_code(&anyhow::anyhow!("{}", m)); tags.push(format!("result:err{}", c)); Outcome::Err(c, m.clone()) }
+                        Err((c, m)) => { tags.push(format!("result:err{}", c)); Outcome::Err(*c, m.clone()) }
+                    };
+                    let e = &ctx.envs[s0.ver];
+                    let coq = format!("x_ss_full_walk {}%N {} {} {} {} {} {} {}", n_tr + 5, e.env_coq, cfl(&ctx.times), cfl(&ctx.speeds), cf(fmax), coq_tstate(&s0.pre), coq_cache(&s0.pre_cache), coq_consist(c0));
+                    sink.put(Case { id: format!("ss_full_walk/{}", ctx.id), kind: "ss_full_walk".into(), coq, outcome, tags,
+                        input: json!({"run": ctx.input, "whole_walk": true}), oracle_fail: fails, known: vec![], in_domain: true });
+                    made += 1;
+                }
+            }
+        }
         // a whole run of consecutive steps under one version of the path: only the end state is compared
         let v0 = ctx.steps[0].ver;
         let m = ctx.steps.iter().take_while(|s| s.ver == v0 && s.post.is_ok()).count().min(12 + rr.below(20));
